@@ -70,9 +70,12 @@ def check(s):
         if fn.name in ("render_states", "__init__", "get_obs", "reset", "step"):
             ctrl += [h for h in scan_function(P, m, qual, fn) if h.kind in ("forbidden-callee", "constant-key", "attribute-assignment")]
     names = {h.what.split("(")[0] for h in ctrl if h.kind != "attribute-assignment"}
-    s.control(f"C11.1 positive controls matched: {sorted(names)}; attribute assignments seen in adapters: {sum(1 for h in ctrl if h.kind == 'attribute-assignment')}")
-    if not ({"time.sleep", "datetime.datetime.now"} <= names and any("key" in nm for nm in names) and any(h.kind == "attribute-assignment" for h in ctrl)):
-        raise AnalysisError(f"C11.1: positive controls not matched ({sorted(names)})")
+    s.control(f"C11.1 effects seen in the repository outside the scope: {sorted(names)}; attribute assignments seen in adapters: {sum(1 for h in ctrl if h.kind == 'attribute-assignment')}")
+    from ..effects import control_armed, positive_control
+    armed, cnames = control_armed(positive_control(P))
+    s.control(f"C11.1 matcher armed on the fixed sample: {cnames}")
+    if not armed:
+        raise AnalysisError(f"C11.1: positive controls not matched ({cnames})")
     # ---------------------------------------------------------------- C11.2 key provenance
     graph_targets = []
     for cls in ("PPO", "A2C", "REINFORCE", "DQN", "SAC"):
@@ -227,6 +230,18 @@ def check(s):
         s.floor(r_, n_)
 
 
+def _seed_given(t):
+    """True when test t asserts that the caller passed seed=..., False when it asserts the opposite, None when it says neither
+    (`"seed" in kwargs`, `"seed" not in kwargs`, `not (...)`)."""
+    if isinstance(t, tuple) and len(t) == 3 and t[:2] == ("un", "Not"):
+        r = _seed_given(t[2])
+        return None if r is None else not r
+    if isinstance(t, tuple) and len(t) == 4 and t[0] == "cmp" and t[1] in ("In", "NotIn") and t[2] == ("const", "seed") \
+            and isinstance(t[3], tuple) and t[3][0] == "param" and t[3][1].startswith("**"):
+        return t[1] == "In"
+    return None
+
+
 def check_gym_seeding(s):
     """GymToLeraxEnv keeps its randomness on the host, inside the wrapped gymnasium.Env. Training is a function of the key only if every
     reset re-creates that generator from a seed derived from the key: the reset callback must pass seed=int(<its operand>) to
@@ -238,7 +253,7 @@ def check_gym_seeding(s):
     b = s.builder(inline=set())
     cases = 0
     for p in live(s.paths(b, "GymToLeraxEnv", "initial")):
-        explicit = any(v for t, v in p.conds)
+        explicit = any(_seed_given(t) == v for t, v in p.conds if _seed_given(t) is not None)
         ios = [x for x in walk(p.ret) if isinstance(x, tuple) and x and x[0] == "call" and x[1] == ("global", "jax.experimental.io_callback")]
         ok = len(ios) == 1 and len(ios[0][2]) >= 3 and isinstance(ios[0][2][0], Closure)
         s.ob("C11.5", con, ok, "the initial observation comes from one io_callback(reset_callback, shape, seed)", loc, key="gym-reset-io", detail=str(len(ios)))
